@@ -85,3 +85,68 @@ UNSAFE_FNS = {
     "slice_assume_init_mut": "unsafe fn: [MaybeUninit<T>] -> [T]",
     "slice_assume_init_ref": "unsafe fn: [MaybeUninit<T>] -> [T]",
 }
+
+# single-slot reinterpretation sites whose occupancy is a value-level contract
+ACC2_EXEMPT = {
+    "Drain::read": "unsafe fn; contract index < buf_size established by translate_range_bounds + Range::next (DRAINIT1)",
+}
+
+# who may write the header
+HEADER_WRITERS = {
+    "size": {
+        "CircularBuffer::new": "constructs the empty buffer",
+        "CircularBuffer::boxed": "raw header write on fresh heap memory (CTOR1)",
+        "CircularBuffer::inc_size": "size + 1 under size < N (ACC1)",
+        "CircularBuffer::dec_size": "size - 1 under size > 0 (ACC1)",
+        "CircularBuffer::truncate_back": "len under len < size",
+        "CircularBuffer::truncate_front": "len under len < size",
+        "CircularBuffer::extend_from_slice": "size + min(free, _), final_size, N",
+        "<CircularBuffer<N, T> as From<[T; M]>>::from": "min(N, M)",
+        "Drain::over_range": "0 while the drain exists (DRN1 b)",
+        "<Drain<N, T> as Drop>::drop": "buf_size - range.len() (DRN1 e)",
+    },
+    "start": {
+        "CircularBuffer::new": "0",
+        "CircularBuffer::boxed": "raw header write of 0",
+        "CircularBuffer::inc_start": "add_mod(start, 1, N)",
+        "CircularBuffer::dec_start": "sub_mod(start, 1, N)",
+        "CircularBuffer::make_contiguous": "0 after rotating",
+        "CircularBuffer::truncate_front": "add_mod(start, dropped, N)",
+        "CircularBuffer::extend_from_slice": "0 when the whole buffer is overwritten",
+        "<CircularBuffer<N, T> as From<[T; M]>>::from": "0",
+    },
+}
+
+# stores whose bound needs arithmetic this family does not do: listed, not decided
+INV1_ASSUMED = {
+    "CircularBuffer::extend_from_slice": {
+        "Add(size, len)": "size + other.len() stored under the branch condition other.len() < N - size",
+    },
+}
+# (function -> (regex on the rendered value, reason))
+INV1_SPECIAL = {
+    "<Drain<N, T> as Drop>::drop": (r"^Sub\(\(\*self\)\.buf_size, ", "buf_size - range.len(): the drain's own arithmetic (DRN1 e; value-level)"),
+}
+
+FREE_VIEW_CALLERS = {
+    "CircularBuffer::extend_from_slice": "clones the new elements into the free slots",
+}
+
+# slice-level reinterpretation [MaybeUninit<T>] -> [T]: (kind, reason)
+SLICE_REINT = {
+    "slice_assume_init_ref": ("body", "the helper itself"),
+    "slice_assume_init_mut": ("body", "the helper itself"),
+    "CircularBuffer::as_slices": ("guarded", "occupied ranges, behind N == 0 || size == 0"),
+    "CircularBuffer::as_mut_slices": ("guarded", "occupied ranges, behind N == 0 || size == 0"),
+    "CircularBuffer::make_contiguous": ("guarded", "occupied range after rotation, behind N == 0 || size == 0"),
+    "<CircularBuffer::drop_range::Dropper<T> as Drop>::drop": ("callee", "segment handed over by drop_range (PS1; caller guards)"),
+    "Drain::as_slices": ("guarded", "un-yielded range, behind N == 0 || buf_size == 0 || iter.is_empty()"),
+    "Drain::as_mut_slices": ("guarded", "un-yielded range, behind N == 0 || buf_size == 0 || iter.is_empty()"),
+    "<CircularBuffer::extend_from_slice::write_uninit_slice_cloned::Guard<T> as Drop>::drop": ("callee", "dst[..initialized]: clones made so far (GUARD1)"),
+}
+
+# helpers whose debug_assert! is weaker than the tabled precondition (table is the stronger side)
+ACC1_BELIEF_WEAKER = {
+    "CircularBuffer::get_maybe_uninit": "asserts size > 0 and index < N; the table demands index < size",
+    "CircularBuffer::get_maybe_uninit_mut": "asserts size > 0 and index < N; the table demands index < size",
+}
